@@ -102,6 +102,20 @@ Theorem C05_history_blocks : forall (A : Type) (eqb : A -> A -> bool),
 Proof. exact history_blocks. Qed.
 Print Assumptions C05_history_blocks.
 
+(* Deriving a new index from the grown object (Series/Frame index=, IndexHierarchy(ihgo), IndexHierarchyGO(ihgo),
+   rename, to_frame) at any point of any history: same tuples, coherent cache, table views = columns of those
+   tuples -- the blocks are handed over only when fresh. *)
+Theorem C05_derive_no_stale_table : forall (A : Type) (eqb : A -> A -> bool),
+  (forall x y, eqb x y = true <-> x = y) ->
+  forall (ops : list (op A)) (st : ihgo A) (h : nat),
+    wf A eqb h (g_tree st) = true -> coherent A st -> forallb (op_dom A eqb h) ops = true ->
+    let d := M_derive A (fold_left (go_step A eqb) ops st) in
+    flatten (g_tree d) = flatten (g_tree st) ++ hist_rows A eqb st ops /\
+    coherent A d /\
+    go_blocks d = Ok (map (S_column (flatten (g_tree st) ++ hist_rows A eqb st ops)) (seq 0 (S h))).
+Proof. exact derive_no_stale_table. Qed.
+Print Assumptions C05_derive_no_stale_table.
+
 (* What the specification selects, said without loops: for selectors `:` / label / list of labels the nested
    loop S_select returns exactly the positions whose tuple matches every level selector (row_match). *)
 Theorem C05_spec_selects_matching : forall (A : Type) (eqb : A -> A -> bool),
@@ -142,6 +156,8 @@ Theorem C05_source_shape :
   gen_go_append_rejects_non_last_label = true /\
   gen_locmap_open_slice_ends_bounded = true /\
   gen_contains_requires_key_end = true /\
+  gen_ih_init_hands_over_blocks_only_if_fresh = true /\
+  gen_index_loc_refreshes_cache_for_every_key = true /\
   gen_go_append_sets_recache = true /\
   gen_go_extend_sets_recache = true.
 Proof. exact source_shape_ok. Qed.
